@@ -367,7 +367,11 @@ func (n *Node) CreateInvoice(amount uint64) (res lightning.Invoice, err error) {
 		}
 		n.W.mu.Lock()
 		defer n.W.mu.Unlock()
-		i, e := n.W.newInvoiceLocked(amount*1000, n.Name, "mint")
+		msat := amount * 1000
+		if amount > (1<<63)/1000 {
+			msat = 1 << 63 // saturate: the mint keeps the quote amount itself, the encoded value is irrelevant to it
+		}
+		i, e := n.W.newInvoiceLocked(msat, n.Name, "mint")
 		if e != nil {
 			return e
 		}
@@ -388,10 +392,8 @@ func (n *Node) InvoiceStatus(hash string) (res lightning.Invoice, err error) {
 		if i == nil || i.Owner != n.Name {
 			return errors.New("invoice does not exist")
 		}
-		res = lightning.Invoice{PaymentRequest: i.Bolt11, PaymentHash: i.Hash, Settled: i.Settled, Amount: i.AmountMsat / 1000, Expiry: 3600}
-		if i.Settled {
-			res.Preimage = i.Preimage
-		}
+		// a node knows the preimage of its own invoice whether or not it is settled
+		res = lightning.Invoice{PaymentRequest: i.Bolt11, PaymentHash: i.Hash, Preimage: i.Preimage, Settled: i.Settled, Amount: i.AmountMsat / 1000, Expiry: 3600}
 		return nil
 	})
 	return
